@@ -921,8 +921,14 @@ async fn input_processing(
         let labels_of_other_inputs: Vec<Option<Label>> = masked_inputs
             .iter()
             .enumerate()
-            .map(|(w, input)| input.map(|b| input_labels[w] ^ (b & delta)))
-            .collect();
+            .map(|(w, input)| match input {
+                Some(b) => match input_labels.get(w) {
+                    Some(label) => Ok(Some(*label ^ (*b & delta))),
+                    None => Err(MpcError::InputWithoutLabel(w)),
+                },
+                None => Ok(None),
+            })
+            .collect::<Result<_, _>>()?;
         send_to(channel, p_eval, "labels", &labels_of_other_inputs).await?;
     } else {
         debug!("Evaluator party, receiving masked inputs and labels");
